@@ -63,9 +63,19 @@ def snapraid_sources():
 
 
 def file_hash(path):
+    """hash of a source file and of the .c files it textually includes (util.c includes murmur3.c, spooky2.c, ...)"""
     h = hashlib.sha256()
-    with open(path, "rb") as f:
-        h.update(f.read())
+    seen = set()
+
+    def add(p):
+        if p in seen or not os.path.exists(p):
+            return
+        seen.add(p)
+        data = open(p, "rb").read()
+        h.update(data)
+        for m in re.finditer(rb'#\s*include\s+"([^"]+\.c)"', data):
+            add(os.path.join(os.path.dirname(p), m.group(1).decode()))
+    add(path)
     return h.hexdigest()
 
 
